@@ -150,36 +150,36 @@ def _execute(case, col, model):
 
 
 def classify(case, obj, back):
-    """A coarse root-cause key for unequal round trips: kind of the first differing field + value shape."""
+    """A coarse root-cause key for unequal objects: kind of the innermost differing field + how the value differs."""
     import dataclasses
     spec = case["spec"]
 
-    def walk(a, b):
+    def walk(a, b, kind):
         if type(a) is not type(b):
-            return f"type:{type(a).__name__}->{type(b).__name__}"
+            return f"{kind}/type:{type(a).__name__ if not dataclasses.is_dataclass(a) else 'model'}->{type(b).__name__ if not dataclasses.is_dataclass(b) else 'model'}"
         if dataclasses.is_dataclass(a):
             cid = getattr(type(a), "__vid__", None)
             fs = {f["py"]: f for f in M.all_fields(spec, cid)} if cid is not None else {}
             for f in dataclasses.fields(a):
                 x, y = getattr(a, f.name), getattr(b, f.name)
                 if not deep_eq(x, y):
-                    fk = fs.get(f.name, {}).get("kind", type(a).__name__)
-                    sub = walk(x, y)
-                    return f"{fk}/{sub}" if not dataclasses.is_dataclass(x) or type(x) is not type(y) else sub
-        if isinstance(a, (list, tuple)):
+                    return walk(x, y, fs.get(f.name, {}).get("kind", type(a).__name__))
+        if isinstance(a, (list, tuple)) and not hasattr(a, "_fields"):
             if len(a) != len(b):
-                return "len"
+                return f"{kind}/len"
             for x, y in zip(a, b):
                 if not deep_eq(x, y):
-                    return walk(x, y)
+                    return walk(x, y, kind)
+        if isinstance(a, dict):
+            return f"{kind}/dict"
         if isinstance(a, str):
             if a.replace("\r\n", "\n").replace("\r", "\n") == b:
-                return "str-cr"
+                return f"{kind}/str-cr"
             if a.strip() == b.strip():
-                return "str-ws"
-            return "str"
-        return type(a).__name__
-    return walk(obj, back)
+                return f"{kind}/str-ws"
+            return f"{kind}/str"
+        return f"{kind}/{type(a).__name__}"
+    return walk(obj, back, "root")
 
 
 def plan(tier, seed):
